@@ -1,33 +1,46 @@
 #!/usr/bin/env python3
 """usage: record_mutant.py <seeded-id> <property> [tier-args...]
-Applies the seeded change to /repo, runs the property's check (no evidence), reverts, and writes
-/verif/seeded/<id>/meta.json with what was run and what the check reported."""
-import json, os, re, subprocess, sys
+Applies the seeded change to a fresh scratch worktree of /repo HEAD, runs the property's check against that
+worktree (development overrides VERIF_REPO / VERIF_BINDIR; /repo itself is not touched, so several of these
+may run side by side), removes the worktree and writes /verif/seeded/<id>/meta.json with what was run and
+what the check reported."""
+import json, os, re, subprocess, sys, tempfile, shutil
 sid, prop = sys.argv[1], sys.argv[2]
 extra = sys.argv[3:]
 d = '/verif/seeded/%s' % sid
 meta_path = d + '/meta.json'
 meta = json.load(open(meta_path)) if os.path.exists(meta_path) else {}
-if subprocess.run(['git', '-C', '/repo', 'diff', '--quiet']).returncode != 0:
-    sys.exit('/repo has uncommitted changes')
-r = subprocess.run(['git', '-C', '/repo', 'apply', "--exclude=*policies.yaml", d + '/patch.diff'], capture_output=True, text=True)
-if r.returncode != 0:
-    sys.exit('patch does not apply: ' + r.stderr)
+head = subprocess.run(['git', '-C', '/repo', 'log', '--format=%h', '-1'], capture_output=True, text=True).stdout.strip()
+os.makedirs('/tmp/sw', exist_ok=True)
+wt = '/tmp/sw/rec-%s-%d' % (sid, os.getpid())
+bindir = tempfile.mkdtemp(prefix='vbin.', dir='/tmp')
+subprocess.run(['git', '-C', '/repo', 'worktree', 'add', '--detach', wt, 'HEAD'], capture_output=True, check=True)
 try:
-    p = subprocess.run(['/verif/simctl', 'check', prop, '--no-evidence'] + extra, capture_output=True, text=True, cwd='/verif')
+    r = subprocess.run(['git', '-C', wt, 'apply', "--exclude=*policies.yaml", d + '/patch.diff'], capture_output=True, text=True)
+    if r.returncode != 0:
+        meta.update({'id': sid, 'breaks_property': prop, 'applies_to_head': False, 'detected': None,
+                     'ran': 'patch.diff no longer applies to /repo HEAD %s: %s' % (head, r.stderr.strip().splitlines()[0] if r.stderr.strip() else '')})
+        json.dump(meta, open(meta_path, 'w'), indent=1)
+        print(sid, prop, 'PATCH DOES NOT APPLY')
+        sys.exit(0)
+    if os.path.exists('/verif/sim/bin/instrument'):
+        shutil.copy('/verif/sim/bin/instrument', bindir)
+    env = dict(os.environ, VERIF_REPO=wt, VERIF_BINDIR=bindir)
+    p = subprocess.run(['/verif/simctl', 'check', prop, '--no-evidence'] + extra, capture_output=True, text=True, cwd='/verif', env=env)
 finally:
-    subprocess.run(['git', '-C', '/repo', 'checkout', '--', '.'])
+    subprocess.run(['git', '-C', '/repo', 'worktree', 'remove', '--force', wt], capture_output=True)
+    shutil.rmtree(bindir, ignore_errors=True)
 out = p.stdout
 rules = sorted(set(re.findall(r'rule=(\S+) sig=(.+?) seed=', out)))
 summary = [l for l in out.splitlines() if l.startswith(prop + ' tier=')]
-head = subprocess.run(['git', '-C', '/repo', 'log', '--format=%h', '-1'], capture_output=True, text=True).stdout.strip()
 meta.update({
-    'id': sid, 'breaks_property': prop,
+    'id': sid, 'breaks_property': meta.get('breaks_property', prop), 'applies_to_head': True,
     'detected': p.returncode == 1,
+    'detected_by': prop,
     'check_exit': p.returncode,
     'violations_reported': ['%s %s' % x for x in rules],
     'check_summary': summary[-1] if summary else '',
-    'ran': 'git -C /repo apply seeded/%s/patch.diff; ./simctl check %s --no-evidence %s; git -C /repo checkout -- .  (repo HEAD %s)' % (sid, prop, ' '.join(extra), head),
+    'ran': 'scratch worktree of /repo HEAD %s + git apply seeded/%s/patch.diff; VERIF_REPO=<worktree> ./simctl check %s --no-evidence %s; worktree removed' % (head, sid, prop, ' '.join(extra)),
     'confirmed_by': 'tools/verify_mutant.sh: patch applies and builds in a scratch worktree of /repo HEAD, demo passes without and fails with the patch, pinned test-suite of the touched module still passes',
 })
 meta.setdefault('needs_to_manifest', '')
